@@ -135,6 +135,15 @@ func Wrap(zctx *zed.Context, v Value) []Value {
 	if named, err := zctx.LookupTypeNamed("wrapped", rec1); err == nil {
 		add("{f:"+n+"}(=wrapped)", named, body)
 	}
+	// a named type over v's own type (whatever its kind: named errors, named unions, named
+	// primitives ...), used once, used twice in one value (definition, then reference), and
+	// as the type of two fields
+	if nm, err := zctx.LookupTypeNamed("nm", typ); err == nil && typ.Kind() != zed.UnionKind {
+		out = append(out, Value{n + "(=nm)", zed.NewValue(nm, body).Copy()})
+		add("["+n+"(=nm),"+n+"(nm)]", zctx.LookupTypeArray(nm), body, body)
+		add("{f:"+n+"(=nm),g:"+n+"(nm)}", zctx.MustLookupTypeRecord([]zed.Field{{Name: "f", Type: nm}, {Name: "g", Type: nm}}), body, body)
+		add("{f:"+n+"(=nm),g:1}", zctx.MustLookupTypeRecord([]zed.Field{{Name: "f", Type: nm}, {Name: "g", Type: zed.TypeInt64}}), body, one.Bytes())
+	}
 	// array of records, second element with a null field
 	add("[{f:"+n+"},{f:null}]", zctx.LookupTypeArray(rec1), func() zcode.Bytes { var b zcode.Builder; b.Append(body); return b.Bytes() }(), func() zcode.Bytes { var b zcode.Builder; b.Append(nil); return b.Bytes() }())
 	// array whose elements are a union of v's type and string
